@@ -194,7 +194,7 @@ def crash_lines(intent, what):
     evs = list(intent.get('events') or [])
     step = dict(intent['step'])
     a = step.pop('a')
-    evs.append({'t': intent['t'], 'a': a, 'args': step, 'st': evs[-1]['st'], 'obs': {'crash': what}})
+    evs.append({'t': intent['t'], 'a': a, 'args': step, 'st': evs[-1]['st'], 'obs': {'crash': what, 'stuck': ''}})
     return evs
 
 
@@ -267,7 +267,11 @@ def beh_class(b):
 
 
 def judge(rep, behaviours, trace):
-    res = core.tlc_trace('Trace_Propagation.tla', 'Trace_Propagation.cfg', trace, timeout=1500)
+    try:
+        res = core.tlc_trace('Trace_Propagation.tla', 'Trace_Propagation.cfg', trace, timeout=1500)
+    except core.Inconclusive:
+        shutil.copy(trace, os.path.join(core.BUILD, 'X04-trace-not-validated.ndjson'))
+        raise
     by_id = {b['id']: b for b in behaviours}
     lines = {}
     for i, ev in enumerate(core.read_ndjson(trace)):
@@ -345,6 +349,17 @@ def families():
                                           {'a': 'Propose', 'i': 3, 'x': 'c' if x == 'b' else 'b'},
                                           {'a': 'Start', 'r': 4, 's': 'a', 'op': 'expand', 'x': x}, {'a': 'Lock', 'i': 4},
                                           {'a': 'Apply', 's': 'a'}, {'a': 'Propose', 'i': 4, 'x': x}], {'a'}))
+        # the open finding: the ISR change is checked, leadership moves to c (which decides an election) and comes
+        # back, then the stale-checked change is proposed
+        out.append((create(False) + isr + [{'a': 'Lock', 'i': 2}, {'a': 'Transfer', 't': 'c'}, {'a': 'Acquired', 's': 'c'},
+                                           {'a': 'Start', 'r': 3, 's': 'c', 'op': 'elect', 'x': '-'}, {'a': 'Lock', 'i': 3},
+                                           {'a': 'Propose', 'i': 3, 'x': x}, {'a': 'Transfer', 't': 'a'},
+                                           {'a': 'Propose', 'i': 2, 'x': x}], set()))
+    # the same window with a stream deleted meanwhile (repaired adbfb33: refused when applied)
+    out.append((create(False) + [{'a': 'Start', 'r': 2, 's': 'a', 'op': 'shrink', 'x': 'b'}, {'a': 'Lock', 'i': 2},
+                                 {'a': 'Transfer', 't': 'c'}, {'a': 'Start', 'r': 3, 's': 'c', 'op': 'delete', 'x': '-'},
+                                 {'a': 'Lock', 'i': 3}, {'a': 'Propose', 'i': 3, 'x': '-'}, {'a': 'Transfer', 't': 'a'},
+                                 {'a': 'Propose', 'i': 2, 'x': 'b'}], set()))
     # delete / create meeting each other and a deleted stream meeting an ISR change
     out.append((create(False) + [{'a': 'Start', 'r': 2, 's': 'a', 'op': 'shrink', 'x': 'b'},
                                  {'a': 'Start', 'r': 3, 's': 'b', 'op': 'delete', 'x': '-'}, {'a': 'Handle', 'i': 4},
@@ -374,7 +389,7 @@ def run(rep, tier, seed, replay):
     directed = []
     for cfg, what in (('MC_Propagation_nobarrier.cfg', 'preconditions checked without the Raft barrier'),
                       ('MC_Propagation_acqpanic.cfg', 'promotion handled after the server was deposed (fixed 8e543c3)'),
-                      ('MC_Propagation_toctou.cfg', 'known finding: leadership moves away and back between check and proposal'),
+                      ('MC_Propagation_toctou.cfg', 'leadership moves away and back between check and proposal, entry fails in apply (fixed adbfb33)'),
                       ('MC_Propagation_okearly.cfg', 'positive answer although the proposal was refused by Raft')):
         if not os.path.exists(os.path.join(core.SPEC, cfg)):
             continue
